@@ -327,8 +327,15 @@ func (g *Gen) otherRecipient() []byte {
 	if g.chance(0.6) {
 		return g.rand32()
 	}
+	return g.nearModule(g.pick(nNearModule))
+}
+
+const nNearModule = 5
+
+// nearModule(k): the k-th near miss of the padded module address.
+func (g *Gen) nearModule(k int) []byte {
 	b := append([]byte{}, types.PaddedModuleAddress...)
-	switch g.pick(5) {
+	switch k % nNearModule {
 	case 0:
 		g.rng.Read(b[:12])
 		b[g.pick(12)] |= 1
